@@ -335,7 +335,7 @@ def AtIndex (c : Ctx) (R : Nat) : Prop :=
 /-- genuine traffic: well-formed packets whose sequence number is the low half of their true index -/
 def Genuine (d : Nat × Pkt) : Prop := d.2.WF ∧ d.2.hdr.seq = d.1 % 2 ^ 16
 
-theorem in_window_step (c : Ctx) (R I : Nat) (hc : AtIndex c R)
+private theorem in_window_step (c : Ctx) (R I : Nat) (hc : AtIndex c R)
     (h1 : (R : Int) - I < 2 ^ 15) (h2 : (I : Int) - R < 2 ^ 15) (h3 : I < 2 ^ 48) :
     c.estimate (I % 2 ^ 16) = I / 2 ^ 16 ∧ AtIndex (c.updated (I % 2 ^ 16) (I / 2 ^ 16)) (max R I) := by
   obtain ⟨hroc, l, hl, hll, hR⟩ := hc
@@ -350,7 +350,7 @@ theorem in_window_step (c : Ctx) (R I : Nat) (hc : AtIndex c R)
   · exact ⟨hdiv, I % 65536, rfl, hmod, by simp only [index48] at *; omega⟩
   · exact ⟨hroc, l, rfl, hll, by simp only [index48] at *; omega⟩
 
-theorem rtpWireBody_keys (S : Suite) (a b : Ctx) (p : Pkt) (roc : Nat)
+private theorem rtpWireBody_keys (S : Suite) (a b : Ctx) (p : Pkt) (roc : Nat)
     (hs : a.ssrc = b.ssrc) (hp : a.profile = b.profile) (hk : a.rtp = b.rtp) :
     rtpWireBody S a p roc = rtpWireBody S b p roc := by
   simp [rtpWireBody, cmBody, rtpTag, Ctx.encrypts, hs, hp, hk]
@@ -393,7 +393,7 @@ theorem receiver_history (S : Suite) (deliveries : List (Nat × Pkt)) (cs c : Ct
     exact ih _ _ hs hp hk (by simpa [Nat.reducePow, hseq] using hc') (fun x hx => hg x (by simp [hx])) hrest
 
 
-theorem fresh_step (c : Ctx) (I : Nat) (hroc : c.roc = 0) (hlast : c.last = none) (hI : I < 2 ^ 16) :
+private theorem fresh_step (c : Ctx) (I : Nat) (hroc : c.roc = 0) (hlast : c.last = none) (hI : I < 2 ^ 16) :
     c.estimate (I % 2 ^ 16) = I / 2 ^ 16 ∧ AtIndex (c.updated (I % 2 ^ 16) (I / 2 ^ 16)) I := by
   simp only [Nat.reducePow] at hI
   have hm : I % 65536 = I := Nat.mod_eq_of_lt hI
@@ -475,6 +475,7 @@ theorem session_roundtrip_rtp (S : Suite) (s r : Sess) (now now' : Nat) (p : Pkt
     (hl : Linked S s r)
     (hsync0 : rocOf s.tx p.hdr.ssrc = rocOf r.rx p.hdr.ssrc) :
     ∃ wire, (s.protectRtp S now p).1 = .ok wire ∧
+      (∃ body, parseHdr wire = .ok (p.hdr, decide (p.padLen ≠ 0), body)) ∧
       (r.receiveRtp S now' wire).1 = .ok p ∧
       Linked S (s.protectRtp S now p).2 (r.receiveRtp S now' wire).2 ∧
       rocOf (s.protectRtp S now p).2.tx p.hdr.ssrc = rocOf (r.receiveRtp S now' wire).2.rx p.hdr.ssrc := by
@@ -504,7 +505,7 @@ theorem session_roundtrip_rtp (S : Suite) (s r : Sess) (now now' : Nat) (p : Pkt
   obtain ⟨hok, hroc2⟩ := hacc p (by show (cr.unprotectRtp S _ _ _).1 = _; rw [hun])
   have hu : (r.unprotectRtp S now' p.hdr (p.padLen ≠ 0) (rtpWireBody S cs p (cs.estimate p.hdr.seq))).1 = .ok p := hok
   obtain ⟨hrecv, hrecvs⟩ := receiveRtp_ok S r now' _ p.hdr (p.padLen ≠ 0) _ p (parseHdr_writeHdr _ _ _ wf.hdr) hu
-  refine ⟨_, hres, hrecv, ?_, ?_⟩
+  refine ⟨_, hres, ⟨_, parseHdr_writeHdr _ _ _ wf.hdr⟩, hrecv, ?_, ?_⟩
   · -- both sessions keep their keys and table invariants
     have t := protectRtp_kept S s now p hl.txInv
     have q := unprotectRtp_kept S r now' p.hdr (p.padLen ≠ 0) (rtpWireBody S cs p (cs.estimate p.hdr.seq)) hl.rxInv
@@ -540,7 +541,7 @@ theorem session_stream_roundtrip (S : Suite) (k now : Nat) (ps : List Pkt) (s r 
   | cons p ps ih =>
     obtain ⟨wf, hk⟩ := hps p (by simp)
     subst hk
-    obtain ⟨wire, h1, h2, h3, h4⟩ := session_roundtrip_rtp S s r now now p wf hl hsync
+    obtain ⟨wire, h1, _, h2, h3, h4⟩ := session_roundtrip_rtp S s r now now p wf hl hsync
     simp only [streamThrough, h1, h2, List.map_cons]
     rw [ih _ _ h3 (fun q hq => hps q (by simp [hq])) h4]
 
@@ -630,5 +631,60 @@ theorem many_ssrc_roundtrip_witness : ¬ (∀ S, ManySsrcRoundtrip S) ∧
     · exact pkt_WF _ _ (by decide) (by decide))
   rw [h1] at this
   exact absurd this (by decide)
+
+
+/-- **many_ssrc_roundtrip_partial** — the part of `ManySsrcRoundtrip` that does hold: any number of
+SSRCs, interleaved arbitrarily, any sequence numbers, as long as NO context idles for the eviction
+time: all activity (the tables' last-use stamps and the schedule) lies in a window shorter than
+`SSRC_INACTIVITY_EVICT` starting at `T`, and nothing is lost. (The excluded point is exactly the
+witness above; loss is covered per context by `reorder_loss_roundtrip`.) -/
+theorem many_ssrc_roundtrip_partial (S : Suite) (T : Nat) (sched : List (Nat × Bool × Pkt)) (s r : Sess)
+    (hl : Linked S s r) (hsync : ∀ k, rocOf s.tx k = rocOf r.rx k)
+    (hwf : ∀ x ∈ sched, x.2.2.WF) (hdel : ∀ x ∈ sched, x.2.1 = true)
+    (ht : ∀ x ∈ sched, T ≤ x.1 ∧ x.1 < T + ssrcInactivityEvictSecs)
+    (hus : UsedSince T s.tx) (hur : UsedSince T r.rx) :
+    allDelivered S s r sched = true := by
+  induction sched generalizing s r with
+  | nil => rfl
+  | cons x rest ih =>
+    obtain ⟨now, deliver, p⟩ := x
+    have hd : deliver = true := hdel (now, deliver, p) (List.mem_cons_self ..)
+    subst hd
+    obtain ⟨hT, hn⟩ := ht _ (List.mem_cons_self ..)
+    simp only at hT hn
+    have wf : p.WF := hwf _ (List.mem_cons_self ..)
+    obtain ⟨wire, h1, ⟨body, hparse⟩, h2, h3, h4⟩ := session_roundtrip_rtp S s r now now p wf hl (hsync p.hdr.ssrc)
+    have ftx := withTx_frame S s T now p.hdr.ssrc (fun c => c.protectRtp S p) hus hT hn
+      (fun c => protectRtp_ssrc S c p) (fun c => protectRtp_lastUsed S c p)
+    have frx := withRx_frame S r T now p.hdr.ssrc (fun c => c.unprotectRtp S p.hdr (p.padLen ≠ 0) body) hur hT hn
+      (fun c => unprotectRtp_ssrc S c _ _ _) (fun c => unprotectRtp_lastUsed S c _ _ _)
+    have hrs := receiveRtp_snd S r now wire p.hdr (p.padLen ≠ 0) body hparse
+    have u1 : UsedSince T (s.protectRtp S now p).2.tx := ftx.1
+    have f1 : ∀ k, k ≠ p.hdr.ssrc → rocOf (s.protectRtp S now p).2.tx k = rocOf s.tx k := ftx.2
+    have u2 : UsedSince T (r.receiveRtp S now wire).2.rx := by rw [hrs]; exact frx.1
+    have f2 : ∀ k, k ≠ p.hdr.ssrc → rocOf (r.receiveRtp S now wire).2.rx k = rocOf r.rx k := by
+      rw [hrs]; exact frx.2
+    simp only [allDelivered, h1, h2, if_true, beq_self_eq_true, Bool.true_and]
+    refine ih _ _ h3 (fun k => ?_) (fun y hy => hwf y (List.mem_cons_of_mem _ hy))
+      (fun y hy => hdel y (List.mem_cons_of_mem _ hy)) (fun y hy => ht y (List.mem_cons_of_mem _ hy)) u1 u2
+    by_cases hk : k = p.hdr.ssrc
+    · rw [hk]; exact h4
+    · rw [f1 k hk, f2 k hk]; exact hsync k
+
+end RtcModel.Theorems.C04
+
+namespace RtcModel.Theorems.C04
+open RtcModel.Srtp RtcModel.C04 RtcModel.Generated Witness
+
+/-- non-vacuity of `many_ssrc_roundtrip_partial`: 34 streams, one of them across a rollover -/
+example : allDelivered toySuite s0 s0 warmup = true := by
+  have hsh : ∀ y ∈ warmup, y.1 = 0 ∧ y.2.1 = true := by
+    intro y hy
+    simp only [warmup, List.mem_append, List.mem_map, List.mem_range, List.mem_cons, List.not_mem_nil, or_false] at hy
+    rcases hy with ⟨k, _, rfl⟩ | rfl | rfl | rfl | rfl <;> exact ⟨rfl, rfl⟩
+  exact many_ssrc_roundtrip_partial toySuite 0 warmup s0 s0 linked0 (fun _ => rfl)
+    (fun x hx => wf_of_mem warmup_shape hx) (fun x hx => (hsh x hx).2)
+    (fun x hx => by rw [(hsh x hx).1]; exact ⟨Nat.le_refl _, by decide⟩)
+    (fun _ h => by simp [s0, Sess.new] at h) (fun _ h => by simp [s0, Sess.new] at h)
 
 end RtcModel.Theorems.C04
